@@ -65,6 +65,35 @@ def validate(chk, events, nphrases, label):
     return False
 
 
+def binding_selftest(chk, events, nphrases):
+    """one recorded answer changed to another tied document: the validator has to stop at that event"""
+    import copy
+    seen = {}
+    target = None
+    for k, e in enumerate(events):
+        if e["ev"] == "lookup":
+            if e["q"] in seen and len(e["tie"]) > 1 and e["win"] == e["tie"][0]:
+                target = k
+            seen[e["q"]] = k
+    if target is None:
+        return
+    ev = copy.deepcopy(events)
+    ev[target]["win"] = ev[target]["tie"][1]
+    w = vlib.workdir("c14-selftest")
+    path = os.path.join(w, "t.ndjson")
+    vlib.write_ndjson(path, ev)
+    t = tlc("Trace_IndexBuild", "Trace_IndexBuild.cfg", workers=1, env={"TRACE": path, "NPHRASES": nphrases}, timeout=1800, xmx="12g")
+    reached = None
+    for line in t.printed:
+        if line.startswith('<<"REACHED"'):
+            reached = int(line.strip("<>").split(",")[1])
+    ok = reached == target + 1
+    vlib.log("[selftest] Trace_IndexBuild: answer of event %d changed to another tied document: %s" % (target + 1, "rejected there" if ok else "NOT rejected (reached %s)" % reached))
+    chk.cov.setdefault("binding_selftest", {})["Trace_IndexBuild"] = {"another tied document answers in one session": "rejected at that event" if ok else "accepted"}
+    if not ok:
+        raise ToolError("binding self-test: Trace_IndexBuild accepted a history in which one session answers with another tied document")
+
+
 def one_history(chk, p, seed, label):
     w = vlib.workdir("c14-run")
     out = os.path.join(w, "trace.ndjson")
@@ -90,6 +119,8 @@ def one_history(chk, p, seed, label):
     ok = validate(chk, events, info["phrases"], label)
     if ok:
         chk.cov["traces_validated_against_impl"] += len(info["sessions"])
+        if "Trace_IndexBuild" not in chk.cov.get("binding_selftest", {}):
+            binding_selftest(chk, events, info["phrases"])
     for e in [e for e in lookups if len(e["tie"]) > 1][:3]:
         chk.sample({"phrase": e["phrase"], "session": e["s"], "winner_shipped_position": e["win"], "tied": e["tie"]})
     return info
